@@ -16,6 +16,7 @@
 import PacketVerif.Props.C01ParseTie
 import PacketVerif.Props.C13ArpTie
 import PacketVerif.Props.C14Icmp6Tie
+import PacketVerif.Props.C08Handlers
 namespace PV.Props.ComposeGenHandlers
 open PV PV.Model PV.Model.Handlers PV.Lemmas
 
@@ -163,5 +164,35 @@ theorem arpFrame_tie (e : ArpGo.Env) (st : ArpGo.HSt) (p : Bytes)
         | err x => rfl
         | panic => rfl
         | hang => rfl
+
+/-! ### C08 on the regenerated bodies: no raw frame makes the pipeline panic or hang -/
+
+/-- **the regenerated Parse + the regenerated `Handler6.ProcessPacket` return on every byte string**, in every
+    handler state satisfying the handler invariant (`C08Handlers.icmp6_frame_total` carried over the tie) -/
+theorem genH6Frame_total (e : H6Env) (he : Lemmas.Handlers.H6EnvOK e) (g : Icmp6Go.G6) (hmu : g.st.mu = false)
+    (hnd : (g.routers.map (·.1)).Nodup) (hinv : Lemmas.Handlers.Inv6 (Icmp6Go.abs g)) (p : Bytes) :
+    ∃ g' d, genH6Frame e g p = .ok (g', d) := by
+  have hmu' : (Icmp6Go.abs g).mu = false := hmu
+  obtain ⟨st', d, hok, -⟩ := C08Handlers.icmp6_frame_total e he (Icmp6Go.abs g) hmu' hinv p
+  have ht := h6Frame_tie e g p hmu hnd
+  rw [hok] at ht
+  cases hg : genH6Frame e g p with
+  | ok x => exact ⟨x.1, x.2, rfl⟩
+  | err x => rw [hg] at ht; cases ht
+  | panic => rw [hg] at ht; cases ht
+  | hang => rw [hg] at ht; cases ht
+
+/-- the same for the ARP handler (`C08Handlers.arp_frame_total` carried over the tie) -/
+theorem genArpFrame_total (e : ArpGo.Env) (he : Lemmas.Handlers.ArpEnvOK e.toArpEnv) (st : ArpGo.HSt) (p : Bytes)
+    (hoff : ∀ m o, e.offer m = some o → o.length = 4) :
+    ∃ st' d, genArpFrame e st p = .ok (st', d) := by
+  obtain ⟨st', d, hok, -⟩ := C08Handlers.arp_frame_total e.toArpEnv he (ArpTie.absM false st) rfl p
+  have ht := arpFrame_tie e st p hoff
+  rw [hok] at ht
+  cases hg : genArpFrame e st p with
+  | ok x => exact ⟨x.1, x.2, rfl⟩
+  | err x => rw [hg] at ht; cases ht
+  | panic => rw [hg] at ht; cases ht
+  | hang => rw [hg] at ht; cases ht
 
 end PV.Props.ComposeGenHandlers
